@@ -33,6 +33,8 @@ type C02Case struct {
 	// Warmup: the same script has just been run (and closed) on the same WAF: the transaction under test runs on
 	// a recycled object and must start from the configured engine mode
 	Warmup bool `json:"warmup,omitempty"`
+	// AfterLogging: the script goes on with phase / body calls after ProcessLogging
+	AfterLogging bool `json:"after_logging,omitempty"`
 }
 
 func canonicalScript(r *Req) []Call {
@@ -190,6 +192,14 @@ func genC02(t *rapid.T) *C02Case {
 		if len(script) > 16 {
 			script = append(script[:15], Call{Op: "p5"})
 		}
+	}
+	if rapid.IntRange(0, 3).Draw(t, "afterlogging") == 0 {
+		// phase and body calls that arrive after the logging phase (only calls after Close are excluded)
+		for i, n := 0, rapid.IntRange(1, 4).Draw(t, "ntail"); i < n; i++ {
+			op := rapid.SampledFrom([]string{"p1", "p2", "p3", "p4", "p1", "p3", "wreq", "wresp"}).Draw(t, "tailop")
+			script = append(script, Call{Op: op, Code: 200, Data: []byte("xy")})
+		}
+		c.AfterLogging = true
 	}
 	c.Script = script
 	c.Warmup = rapid.IntRange(0, 2).Draw(t, "warmup") == 0
@@ -543,6 +553,9 @@ func checkC02(c *C02Case) Result {
 	}
 	if c.LimitReject {
 		res.Labels = append(res.Labels, "limit-reject-configured")
+	}
+	if c.AfterLogging {
+		res.Labels = append(res.Labels, "phase-calls-after-logging")
 	}
 	if !c.Canonical {
 		res.Labels = append(res.Labels, "anomalous-script")
